@@ -235,11 +235,28 @@ def bodyKey (df : Def) (id : Nat) : Option (Option Nat × List ArgSrc × Bool) :
 theorem runEntry_zero (cfg : Cfg) (fn : Fn) (e : Entry) (x : Dispatch) (d : Nat) :
     runEntry cfg 0 fn e x d = (fn, .depth, [], 0) := rfl
 
+/-- what the generated dependent dispatcher of a `.dep hs _` entry answers on the forwarded arguments; it reads
+    the declared types of the handlers from the registered entries only -/
+def depRes (cfg : Cfg) (meths : List Meth) (hs : List Nat) (x : Dispatch) : DRes :=
+  dispatch cfg.dworld (x.key.map (·.1))
+    (hs.map (fun h => (h, ((meths.find? (fun m => m.id == h)).map (·.params)).getD [])))
+    ((x.passPos.zipIdx.map (fun (a, i) => (Slot.pos i, a.val))) ++ (x.passKw.map (fun (n, a) => (Slot.kw n, a.val))))
+
 theorem runEntry_dep (cfg : Cfg) (f : Nat) (fn : Fn) (hs : List Nat) (nx : Entry) (x : Dispatch) (d : Nat) :
-    runEntry cfg (f + 1) fn (.dep hs nx) x d = (fn, .unsupported, [], 0) := rfl
+    runEntry cfg (f + 1) fn (.dep hs nx) x d =
+      match depRes cfg fn.mm.meths hs x with
+      | .handler h => runEntry cfg f fn (.meth h) x d
+      | .fallthrough =>
+        (match nx with
+         | .noNext => (fn, .noMethod, [], 0)
+         | e' => runEntry cfg f fn e' x d)
+      | .ambiguous => (fn, .ambiguous hs, [], 0)
+      | .raised => (fn, .raised, [], 0) := by
+  cases nx <;> rw [runEntry] <;> first | rfl | (intro h; cases h)
 
 theorem runEntry_noNext (cfg : Cfg) (f : Nat) (fn : Fn) (x : Dispatch) (d : Nat) :
-    runEntry cfg (f + 1) fn .noNext x d = (fn, .unsupported, [], 0) := rfl
+    runEntry cfg (f + 1) fn .noNext x d = (fn, .noMethod, [], 0) := by
+  rw [runEntry]
 
 theorem runEntry_meth (cfg : Cfg) (f : Nat) (fn : Fn) (id : Nat) (x : Dispatch) (depth : Nat) :
     runEntry cfg (f + 1) fn (.meth id) x depth =
@@ -374,8 +391,22 @@ theorem runEntry_rel (cfg : Cfg) (ds : List (Def × Int)) (ana : Analysis) (e0 :
   | succ f ih =>
     intro fn1 fn2 e x d h1 h2
     cases e with
-    | dep hs nx => exact RunRel.triv cfg ds ana e0 fn1 fn2 h1 h2 _ _
-    | noNext => exact RunRel.triv cfg ds ana e0 fn1 fn2 h1 h2 _ _
+    | dep hs nx =>
+      -- both states carry the same registered entries, hence the same handlers and the same dispatcher answer;
+      -- the dispatcher performs no lookup: the recursive calls start from the same states `fn1`, `fn2`
+      rw [runEntry_dep, runEntry_dep, h1.mm.meths, h2.mm.meths]
+      cases depRes cfg (Fn.methsOf ds) hs x with
+      | handler h => exact ih fn1 fn2 (.meth h) x d h1 h2
+      | fallthrough =>
+        cases nx with
+        | noNext => exact RunRel.triv cfg ds ana e0 fn1 fn2 h1 h2 _ _
+        | meth id => exact ih fn1 fn2 (.meth id) x d h1 h2
+        | dep hs' nx' => exact ih fn1 fn2 (.dep hs' nx') x d h1 h2
+      | ambiguous => exact RunRel.triv cfg ds ana e0 fn1 fn2 h1 h2 _ _
+      | raised => exact RunRel.triv cfg ds ana e0 fn1 fn2 h1 h2 _ _
+    | noNext =>
+      rw [runEntry_noNext, runEntry_noNext]
+      exact RunRel.triv cfg ds ana e0 fn1 fn2 h1 h2 _ _
     | meth id =>
       rw [runEntry_meth, runEntry_meth, findDef_eq fn1 ds h1.defns, findDef_eq fn2 ds h2.defns, h1.ana, h2.ana]
       cases ds[id]?.map (·.1) with
